@@ -236,3 +236,27 @@ var Stressful = []reflect.Type{
 	reflect.TypeOf(GAll{}), reflect.TypeOf([]GAll{}), reflect.TypeOf(GZero{}), reflect.TypeOf(GZero2{}), reflect.TypeOf([]GZero2{}),
 	reflect.TypeOf(map[string]*GAll{}),
 }
+
+// Tail arrays: a fixed-size array with pointers as the last part of a heap object
+// that fills its malloc size class exactly (objects above 512 bytes carry a type
+// header, so "one past the end of the array" is the header of the next slot).
+func tailArrayTypes() []reflect.Type {
+	var ts []reflect.Type
+	i64 := reflect.TypeOf(int64(0))
+	for _, class := range []int{576, 640, 704, 768, 896, 1024, 1152, 1280, 2048} {
+		for _, tail := range []reflect.Type{reflect.TypeOf([3]*int{}), reflect.TypeOf([2]string{}), reflect.TypeOf([1]*GJ{}), reflect.TypeOf([2]map[string]int{})} {
+			k := (class - 8 - int(tail.Size())) / 8
+			ts = append(ts, reflect.StructOf([]reflect.StructField{
+				{Name: "Pad", Type: reflect.ArrayOf(k, i64), Tag: `json:"-"`},
+				{Name: "A", Type: tail, Tag: `json:"a"`},
+			}))
+		}
+		// the array itself is the object
+		ts = append(ts, reflect.ArrayOf((class-8)/8, reflect.TypeOf((*int8)(nil))))
+	}
+	return ts
+}
+
+func init() {
+	Stressful = append(Stressful, tailArrayTypes()...)
+}
